@@ -15,6 +15,7 @@ pub enum Prim {
     MpscUnbounded,
     Semaphore(usize),
     Mutex,
+    RwLock,
     Notify,
     Oneshot,
     Watch,
@@ -35,6 +36,8 @@ pub enum AOp {
     Recv,
     Acquire(u32),
     Lock,
+    Read,
+    Write,
     Notified,
     OneshotRecv,
     Changed(usize),
@@ -55,6 +58,11 @@ pub enum NOp {
     CloseSem,
     TryLock,
     UnlockOldest,
+    TryRead,
+    TryWrite,
+    UnlockOldestRead,
+    UnlockWrite,
+    Downgrade,
     NotifyOne,
     NotifyWaiters,
     OneshotSend(u32),
@@ -88,7 +96,7 @@ impl<T> Drop for Back<T> {
 macro_rules! make_interp {
     ($name:ident, $t:ident) => {
         pub fn $name(prim: &Prim, script: &[Op]) -> Vec<String> {
-            use $t::sync::{mpsc, oneshot, watch, Mutex, Notify, Semaphore};
+            use $t::sync::{mpsc, oneshot, watch, Mutex, Notify, RwLock, Semaphore};
             let waker: Waker = Arc::new(Noop).into();
             let mut out: Vec<String> = vec![];
             let mut slots: Vec<Option<Fut>> = (0..4).map(|_| None).collect();
@@ -115,6 +123,9 @@ macro_rules! make_interp {
             let permits: Rc<RefCell<Vec<$t::sync::OwnedSemaphorePermit>>> = Rc::new(RefCell::new(vec![]));
             let mtx = Arc::new(Mutex::new(0u32));
             let guards: Rc<RefCell<Vec<$t::sync::OwnedMutexGuard<u32>>>> = Rc::new(RefCell::new(vec![]));
+            let rwl = Arc::new(RwLock::new(0u32));
+            let rguards: Rc<RefCell<Vec<$t::sync::OwnedRwLockReadGuard<u32>>>> = Rc::new(RefCell::new(vec![]));
+            let wguards: Rc<RefCell<Vec<$t::sync::OwnedRwLockWriteGuard<u32>>>> = Rc::new(RefCell::new(vec![]));
             let notify = Arc::new(Notify::new());
             let (otx, orx) = oneshot::channel::<u32>();
             let otx = Rc::new(RefCell::new(Some(otx)));
@@ -163,6 +174,25 @@ macro_rules! make_interp {
                                     let g = m.lock_owned().await;
                                     guards.borrow_mut().push(g);
                                     "lock:ok".to_string()
+                                }) as Fut)
+                            }
+                            AOp::Read => {
+                                let (l, rg) = (rwl.clone(), rguards.clone());
+                                Some(Box::pin(async move {
+                                    let g = l.read_owned().await;
+                                    let v = *g;
+                                    rg.borrow_mut().push(g);
+                                    format!("read:{v}")
+                                }) as Fut)
+                            }
+                            AOp::Write => {
+                                let (l, wg) = (rwl.clone(), wguards.clone());
+                                Some(Box::pin(async move {
+                                    let mut g = l.write_owned().await;
+                                    *g += 1;
+                                    let v = *g;
+                                    wg.borrow_mut().push(g);
+                                    format!("write:{v}")
                                 }) as Fut)
                             }
                             AOp::Notified => {
@@ -328,6 +358,56 @@ macro_rules! make_interp {
                                 "unlocked".into()
                             }
                         }
+                        NOp::TryRead => match rwl.clone().try_read_owned() {
+                            Ok(g) => {
+                                let v = *g;
+                                rguards.borrow_mut().push(g);
+                                format!("try_read:{v}")
+                            }
+                            Err(_) => "try_read:busy".into(),
+                        },
+                        NOp::TryWrite => match rwl.clone().try_write_owned() {
+                            Ok(mut g) => {
+                                *g += 1;
+                                let v = *g;
+                                wguards.borrow_mut().push(g);
+                                format!("try_write:{v}")
+                            }
+                            Err(_) => "try_write:busy".into(),
+                        },
+                        NOp::UnlockOldestRead => {
+                            let mut g = rguards.borrow_mut();
+                            if g.is_empty() {
+                                "no-read-guard".into()
+                            } else {
+                                let x = g.remove(0);
+                                drop(g);
+                                drop(x);
+                                "read-unlocked".into()
+                            }
+                        }
+                        NOp::UnlockWrite => {
+                            let x = wguards.borrow_mut().pop();
+                            match x {
+                                Some(g) => {
+                                    drop(g);
+                                    "write-unlocked".into()
+                                }
+                                None => "no-write-guard".into(),
+                            }
+                        }
+                        NOp::Downgrade => {
+                            let x = wguards.borrow_mut().pop();
+                            match x {
+                                Some(g) => {
+                                    let r = g.downgrade();
+                                    let v = *r;
+                                    rguards.borrow_mut().push(r);
+                                    format!("downgraded:{v}")
+                                }
+                                None => "no-write-guard".into(),
+                            }
+                        }
                         NOp::NotifyOne => {
                             notify.notify_one();
                             "notify_one".into()
@@ -453,6 +533,23 @@ pub fn gen_script(rng: &mut Rng, prim: &Prim, len: usize) -> Vec<Op> {
                 7 => Op::Cancel(s),
                 8 => Op::Now(NOp::TryLock),
                 _ => Op::Now(NOp::UnlockOldest),
+            },
+            Prim::RwLock => match r {
+                0 | 1 => Op::Start(s, AOp::Read),
+                2 => Op::Start(s, AOp::Write),
+                3 | 4 | 5 => Op::Poll(s),
+                6 => Op::Cancel(s),
+                7 => Op::Now(NOp::TryRead),
+                8 => Op::Now(NOp::TryWrite),
+                9 => Op::Now(NOp::UnlockOldestRead),
+                10 => Op::Now(NOp::UnlockWrite),
+                _ => {
+                    if rng.chance(1, 2) {
+                        Op::Now(NOp::Downgrade)
+                    } else {
+                        Op::Now(NOp::UnlockOldestRead)
+                    }
+                }
             },
             Prim::Notify => match r {
                 0 | 1 | 2 => Op::Start(s, AOp::Notified),
